@@ -217,7 +217,9 @@ impl<K: OneRttKey> KeySet<K> {
         //# Endpoints MUST initiate a key update
         //# before sending more protected packets than the confidentiality limit
         //# for the selected AEAD permits.
-        if self.active_key().needs_update(&self.limits) {
+        // Until the derivation timer fires, the other slot holds the previous key rather than
+        // the next one, so an update can only be initiated once it has completed
+        if self.active_key().needs_update(&self.limits) && !self.key_update_in_progress() {
             return KeyPhase::next_phase(self.key_phase());
         }
 
